@@ -115,7 +115,7 @@ static void exec_c11(const plan_t *p)
               if (best >= 20479) probe_hit("line_over_limit"); else if (best >= 20470) probe_hit("line_near_limit"); }
         } else if (!strcmp(k, "parse") && o->has_s) {
             char *name = sim_malloc(o->slen + 1), *ret;
-            int spawns0 = simfs_spawns;
+            int spawns0 = simfs_spawns, fds0 = simfs_open_fds(), temps0 = simfs_live_temp_files();
             memcpy(name, o->s, o->slen); name[o->slen] = 0;
             if (o->a[0]) ret = (char *)spifconf_parse((spif_charptr_t)name, (spif_charptr_t)(o->a[0] == 2 ? "/cfg" : NULL), (spif_charptr_t)"/nonexistent:/cfg:/tmp");
             else ret = (char *)spifconf_parse((spif_charptr_t)name, NULL, NULL);
@@ -125,6 +125,10 @@ static void exec_c11(const plan_t *p)
             if (!may_spawn && simfs_spawns != spawns0) sim_fail("MISMATCH(spawn)", "a process was spawned (\"%.80s\") although no file contains a backquote, %%exec or %%preproc", simfs_last_cmd);
             if (simfs_spawns != spawns0) probe_hit("spawn_by_directive");
             if (simfd_open_streams()) sim_fail("INVARIANT(files-closed)", "%d config streams are still open after spifconf_parse returned", simfd_open_streams());
+            /* nothing the parse opened or created for its own use is left behind: directory handles, temp-file descriptors, temp files */
+            if (simfs_open_dirs()) sim_fail("INVARIANT(left-behind)", "%d directory handles are still open after spifconf_parse returned", simfs_open_dirs());
+            if (simfs_open_fds() != fds0) sim_fail("INVARIANT(left-behind)", "%d temporary-file descriptors opened during the parse are still open", simfs_open_fds() - fds0);
+            if (simfs_live_temp_files() != temps0) sim_fail("INVARIANT(left-behind)", "%d temporary files created during the parse still exist", simfs_live_temp_files() - temps0);
             if (simacc_vars_head()) probe_hit("vars_defined");
             if (cycle > 1 && simacc_vars_head()) probe_hit("second_cycle_uses_vars");
         } else if (!strcmp(k, "find") && o->has_s) {
@@ -199,11 +203,15 @@ static void add(const char *fmt, ...)
     va_end(ap);
     if (n > 0 && gbn + (size_t)n < sizeof(gb)) gbn += (size_t)n;
 }
+static int g_allow_exec;
 static void add_bytes(rng_t *r, size_t n, int mode)
 {
     static const char meta[] = "abc $%~\\\"'`(){}\n\t#<be";
-    for (size_t i = 0; i < n && gbn < sizeof(gb) - 1; i++)
-        gb[gbn++] = mode == 0 ? (unsigned char)rng_below(r, 256) : mode == 1 ? (unsigned char)meta[rng_below(r, sizeof(meta) - 1)] : (unsigned char)('a' + rng_below(r, 26));
+    for (size_t i = 0; i < n && gbn < sizeof(gb) - 1; i++) {
+        gb[gbn] = mode == 0 ? (unsigned char)rng_below(r, 256) : mode == 1 ? (unsigned char)meta[rng_below(r, sizeof(meta) - 1)] : (unsigned char)('a' + rng_below(r, 26));
+        if (gb[gbn] == '`' && !g_allow_exec) gb[gbn] = '.';       /* plans that must not spawn anything contain no backquote at all, so the census applies to them */
+        gbn++;
+    }
 }
 static void gen_conf_file(plan_t *p, rng_t *r, const char *name, int allow_exec, int vars)
 {
@@ -231,7 +239,16 @@ static void gen_conf_file(plan_t *p, rng_t *r, const char *name, int allow_exec,
                 else if (!selfinc && rng_chance(r, 1, 4)) { add("%%include sub/s.cfg\n"); selfinc = 1; }
             }
             else if (c < 72 && vars) add("%%put(k%d v%d)\n", rng_range(r, 0, 3), rng_range(r, 0, 9));
-            else if (c < 78 && vars) add("x %%get(k%d) y\n", rng_range(r, 0, 4));
+            else if (c < 78 && vars) {
+                switch (rng_below(r, 6)) {
+                case 0: add("x %%get(k%d dflt) y\n", rng_range(r, 0, 4)); break;                 /* the variable exists: the default is dropped */
+                case 1: add("x %%get(k%d 'a b') y\n", rng_range(r, 0, 4)); break;
+                case 2: add("%%put(k%d %%get(k%d d))\n", rng_range(r, 0, 3), rng_range(r, 0, 4)); break;
+                case 3: add("x %%get(k%d\n", rng_range(r, 0, 4)); break;                          /* never closed */
+                case 4: add("%%put(k%d\n", rng_range(r, 0, 3)); break;
+                default: add("x %%get(k%d) y\n", rng_range(r, 0, 4)); break;
+                }
+            }
             else if (c < 80) add("%%xb%d(arg %d)\n", rng_range(r, 7, 12), q);
             else if (c < 83) add("%%nosuchbuiltin(a b)\n");
             else if (c < 86) add("v $V1 ${HOME} $(EMPTY) $NOSUCH ~ ~/x \\t\\n \n");
@@ -249,7 +266,17 @@ static void gen_conf_file(plan_t *p, rng_t *r, const char *name, int allow_exec,
                 else add(rng_chance(r, 1, 2) ? "%%exec(echo hello   world)\n" : "x `echo back quoted` y\n");
             }
             else if (c < 94) { int n = rng_range(r, 120, 140); add(rng_chance(r, 1, 2) ? "n ${" : "n $"); for (int i = 0; i < n; i++) add("N"); add("} x\n"); }
-            else if (c < 95 && allow_exec && level == 0) add("%%preproc cat\n");      /* (re-reading a self-including file doubles the recursion at every level) */
+            else if (c < 95 && allow_exec && level == 0) {
+                if (rng_chance(r, 1, 5)) { int n = rng_range(r, 4040, 4100); add("%%preproc cat"); for (int z = 0; z < n; z++) add("t"); add("\n"); }      /* command + file names around PATH_MAX */
+                else add("%%preproc cat\n");
+            }
+            else if (c < 95 && rng_chance(r, 1, 3)) {
+                static const int ln[] = { 250, 4090, 4096, 4100, 20440 };
+                int n = ln[rng_below(r, 5)];
+                add(rng_chance(r, 1, 2) ? "%%include " : "begin ");
+                for (int z = 0; z < n; z++) add("n");
+                add("\n");
+            }      /* (re-reading a self-including file doubles the recursion at every level) */
             else if (c < 97) add("trailing backslash \\\n");
             else add("unterminated ${V1 and $(HOME\n");
         }
@@ -273,10 +300,11 @@ static void gen_c11(plan_t *p, rng_t *r)
     plan_knob(p, "alloc.realloc", rng_range(r, 0, 2));
     plan_knob(p, "alloc.reuse", rng_range(r, 0, 2));
     plan_knob(p, "mkstemp.mode", rng_chance(r, 1, 2) ? 0600 : 0666);
-    plan_knob(p, "tmpdir", rng_chance(r, 1, 3) ? (rng_chance(r, 1, 3) ? rng_range(r, 2, 3) : 1) : 0);
-    if (plan_get(p, "tmpdir", 0) >= 2) { static const int tl[] = { 200, 225, 230, 235, 238, 239, 240, 241, 242, 243, 244, 245, 249, 250, 255, 256, 300 }; plan_knob(p, "tmpdir.len", tl[rng_below(r, 17)]); }
+    plan_knob(p, "tmpdir", rng_chance(r, 1, 3) ? (rng_chance(r, 1, 3) ? rng_range(r, 2, 3) : rng_chance(r, 1, 4) ? rng_range(r, 4, 5) : 1) : 0);
+    if (plan_get(p, "tmpdir", 0) == 2 || plan_get(p, "tmpdir", 0) == 3) { static const int tl[] = { 200, 225, 230, 235, 238, 239, 240, 241, 242, 243, 244, 245, 249, 250, 255, 256, 300 }; plan_knob(p, "tmpdir.len", tl[rng_below(r, 17)]); }
     if (rng_chance(r, 1, 10)) { static const int el[] = { 120, 127, 128, 300, 4096, 20470, 20478, 20479, 20480, 20481, 30000, 65000 }; plan_knob(p, rng_chance(r, 1, 2) ? "env.v1len" : "env.homelen", el[rng_below(r, 12)]); }
-    g_outlen = (plan_get(p, "tmpdir", 0) >= 2 ? plan_get(p, "tmpdir.len", 240) : 4) + 1 + 17;                  /* "<dir>/Eterm-exec-XXXXXX" */
+    g_allow_exec = allow_exec;
+    g_outlen = (plan_get(p, "tmpdir", 0) == 2 || plan_get(p, "tmpdir", 0) == 3 ? plan_get(p, "tmpdir.len", 240) : 4) + 1 + 17;                  /* "<dir>/Eterm-exec-XXXXXX" */
     plan_knob(p, "budget", 3000000);       /* a self-including file legitimately recurses 255 levels deep */
     if (rng_chance(r, 1, 10)) {
         /* a directory whose listing is as long as the line buffer, give or take a few bytes */
@@ -300,8 +328,8 @@ static void gen_c11(plan_t *p, rng_t *r)
             continue;
         }
         if (c == 0) first_ops_start = p->nops;
-        plan_op(p, 0, "ctx", 2, (long)(rng_chance(r, 1, 10) ? rng_range(r, 150, 200) : rng_range(r, 0, 12)), (long)rng_chance(r, 1, 6));
-        if (rng_chance(r, 1, 2)) plan_op(p, 0, "builtin", 1, (long)rng_range(r, 1, 6));
+        plan_op(p, 0, "ctx", 2, (long)(rng_chance(r, 1, 10) ? rng_range(r, 150, 254) : rng_range(r, 0, 12)), (long)rng_chance(r, 1, 6));
+        if (rng_chance(r, 1, 2)) { static const int nb[] = { 1, 2, 3, 4, 5, 6, 13, 33, 73, 153, 240 }; plan_op(p, 0, "builtin", 1, (long)nb[rng_below(r, rng_chance(r, 1, 6) ? 11 : 6)]); }      /* past the second, third ... doubling of the table too */
         gen_conf_file(p, r, "root.cfg", allow_exec, vars);
         if (rng_chance(r, 1, 2)) gen_conf_file(p, r, "inc.cfg", allow_exec, vars);
         if (rng_chance(r, 1, 3)) gen_conf_file(p, r, "sub/s.cfg", allow_exec, vars);
@@ -316,7 +344,8 @@ static void gen_c11(plan_t *p, rng_t *r)
             gbn = 0; gen_path(r, rng_chance(r, 1, 2));
             o = plan_op(p, 0, "find", 1, (long)flags); op_str(o, gb, gbn);
             gbn = 0; gen_path(r, rng_chance(r, 1, 2)); if (gbn < sizeof(gb) - 2) gb[gbn++] = 1;
-            { int comps = rng_range(r, 0, 4); for (int q = 0; q < comps; q++) { if (q && gbn < sizeof(gb) - 2) gb[gbn++] = ':'; if (rng_chance(r, 1, 3)) { if (gbn + 4 < sizeof(gb)) { memcpy(gb + gbn, "/cfg", 4); gbn += 4; } } else gen_path(r, rng_chance(r, 1, 3)); } }
+            { int comps = rng_range(r, 0, 4); for (int q = 0; q < comps; q++) { if (q && gbn < sizeof(gb) - 2) gb[gbn++] = ':'; if (rng_chance(r, 1, 6)) { /* an empty component: "::", a leading or a trailing ':' */ } else if (rng_chance(r, 1, 3)) { if (gbn + 4 < sizeof(gb)) { memcpy(gb + gbn, "/cfg", 4); gbn += 4; } } else gen_path(r, rng_chance(r, 1, 3)); } }
+            if (rng_chance(r, 1, 8) && gbn < sizeof(gb) - 2) gb[gbn++] = ':';
             op_str2(o, gb, gbn);
         }
         if (rng_chance(r, 1, 4)) {
